@@ -7,6 +7,7 @@ import VarmqVerif.Model.Metr
 import VarmqVerif.Model.Trim
 import VarmqVerif.Model.Reap
 import VarmqVerif.Model.Disp
+import VarmqVerif.Model.FifoDisp
 import VarmqVerif.Model.Config
 import VarmqVerif.Model.Wake
 import VarmqVerif.Model.Ack
@@ -999,4 +1000,53 @@ def feed (st : RState St) (lineNo : Nat) (l : RawLine) : RState St :=
       | .error e => .rejected lineNo s!"{e} @ {l.tag} {l.g} {" ".intercalate l.f}"
   | r => r
 end DispMap
+/-! ## FifoDisp: Disp composed with the FIFO specification (one standard queue) -/
+namespace FifoDispMap
+open FifoDisp
+
+structure St where
+  s : FifoDisp.State := {}
+  dm : DispMap.St := {}                 -- bookkeeping of DispMap (job numbering, who holds a slot, …); its `s` is not used
+  pendEnq : List (Nat × String) := []   -- goroutine ↦ job handle it is enqueueing
+
+def events (x : St) (l : RawLine) : Except String (St × List Ev) :=
+  let g := l.g
+  match l.tag, l.f with
+  | "A", _ => .error "NA adapter-backed queue"
+  | "E", [fn, obj, op, arg, res] =>
+    if obj.startsWith "PriorityQueue#" then .error "NA priority queue (its hand-out order is the sorted order: theorems PQ.*)"
+    else if obj.startsWith "Queue#" && !(obj == "Queue#1" || obj.startsWith "Queue#1.") then .error "NA several queues"
+    else if fn == "Queue.Enqueue" && op == "call:Enqueue" then .ok ({ x with pendEnq := (g, arg) :: x.pendEnq.filter (·.1 != g) }, [])
+    else if fn == "Queue.Enqueue" && op == "ret:Enqueue" then
+      if res != "true" then .ok (x, []) else
+      match x.pendEnq.find? (·.1 == g) with
+      | some (_, name) =>
+        let (j, names) := DispMap.idx x.dm.names name
+        .ok ({ x with dm := { x.dm with names := names } }, [.enq j])
+      | none => .error "Enqueue return without call"
+    else if fn == "Queue.Dequeue" && op == "ret:Dequeue" && !x.dm.slot.contains g then
+      match res.splitOn "," with
+      | [name, "true"] =>
+        let (j, names) := DispMap.idx x.dm.names name
+        .ok ({ x with dm := { x.dm with names := names } }, [.drop j])
+      | _ => .ok (x, [])
+    else match DispMap.events x.dm l with
+      | .error e => .error e
+      | .ok (dm', evs) => .ok ({ x with dm := dm' }, evs.map .d)
+  | _, _ =>
+    match DispMap.events x.dm l with
+    | .error e => .error e
+    | .ok (dm', evs) => .ok ({ x with dm := dm' }, evs.map .d)
+
+def feed (st : RState St) (lineNo : Nat) (l : RawLine) : RState St :=
+  match st with
+  | .ok x =>
+    match events x l with
+    | .error e => if e.startsWith "NA" then .na e else .rejected lineNo s!"{e} @ {l.tag} {l.g} {" ".intercalate l.f}"
+    | .ok (x', evs) =>
+      match feedAll FifoDisp.step x'.s evs with
+      | .ok s' => .ok { x' with s := s' }
+      | .error e => .rejected lineNo s!"{e} @ {l.tag} {l.g} {" ".intercalate l.f}"
+  | r => r
+end FifoDispMap
 end VarmqVerif.Driver
